@@ -119,6 +119,17 @@ LRet ==
        /\ ph' = [ph EXCEPT ![g] = Idle]
     /\ UNCHANGED <<tree, out, gen>>
 
+(* Contention round (driver marker): queriers, walkers, handle updaters and  *)
+(* adders hammered a few hot leaves for a while and every one of them kept   *)
+(* completing operations - the "never deadlocks" clause under the load where *)
+(* lock-ordering and re-entrancy mistakes bite.  A stuck round is logged as  *)
+(* "hang", which no action accepts.                                          *)
+LContend ==
+    /\ St("contend")
+    /\ \A g \in Gs : ph[g].phase = "idle"
+    /\ (Ev.progress /\ Ev.ops > 0) = TRUE
+    /\ UNCHANGED <<tree, out, ph, gen>>
+
 (* all goroutines joined: the content read back is the specification's      *)
 LFinal ==
     /\ St("final")
@@ -139,7 +150,7 @@ BeforeRet ==
     /\ l <= Len(Trace) /\ Trace[l].ev = "ret"
     /\ ph[Trace[l].g].phase \in {"inv", "handle", "scan"}
 Lin == BeforeRet /\ \E g \in Gs : LinAdd(g) \/ LinGet(g) \/ LinDelete(g) \/ LinHandle(g) \/ LinUpdate(g)
-LNext == LReset \/ LInv \/ LRet \/ LFinal \/ Lin
+LNext == LReset \/ LInv \/ LRet \/ LFinal \/ LContend \/ Lin
 LSpec == LInit /\ [][LNext]_lvars
 
 (* Reaching the end of the trace is reported as a violation of NotDone so   *)
